@@ -87,6 +87,7 @@ def step (cx : Ctx) (line : String) : String :=
         | none => "nomodel")
      | _ => Ach.CreateDriver.run args)
   | "validate" :: args => Ach.ValidateDriver.run args
+  | "validateiat" :: args => Ach.ValidateDriver.runIat args
   | ["write", shape] => writeShape shape
   | "reader" :: toks => Ach.ReaderSM.runLine toks
   | "merge" :: args => Ach.MergeDriver.run args
